@@ -6,10 +6,20 @@ interleaving of those is a run of this system.  Every component function is the 
 (`appWrite`, `appRead`, `processFrame`, `closeFlow`, `openRound`, …), i.e. exactly the functions the
 correspondence harness compares with the real `Multiplexor`; nothing is re-modelled here.
 
+Bind requests travel on the same connection: `request_bind`, `next_bind_request`, `BindRequest::reply`
+and the drop of a `BindRequest` are actions (the endpoint model's `appBindReq`, `appBindNext`,
+`appBindReply`, `appBindDrop`), the receive loop processes `Bind` frames like any other frame, and a
+hand-over parked on a full bind queue completes with `unpark` (the receive loop stays parked until
+then).  `Lemmas/PairBind.lean` shows that the flow id of a bind request stays apart from every stream
+for the rest of the run (part `Binds` of the invariant `Pair.Inv`).  What the bind calls resolve to is
+the subject of `Model/BindPair` (connections with bind traffic only; no ghost record of bind outcomes
+is kept here).
+
 Outside this fragment (covered by the endpoint model's own theorems, C08/C10/C15): connection
-teardown (Close, transport errors, dropping the `Multiplexor`), malformed peers, Bind requests, sink
+teardown (Close, transport errors, dropping the `Multiplexor`), malformed peers, sink
 back-pressure (here the sink takes one message per `xmit` action, in any interleaving, which subsumes
-every back-pressure pattern).
+every back-pressure pattern).  The stimulus level at the end of this file (`stimL`, `deliverL`)
+covers the bind calls and deliveries of `Bind` frames too.
 
 Ghost components (`wlog`, `rlog`, `dropped`) record what the applications observed: the bytes
 accepted by successful writes and returned by reads per stream object, and which handles were
@@ -92,6 +102,10 @@ inductive Act where
   | unpark                                          -- a parked hand-over to the accept queue completes
   | runDone                                         -- answered `new_stream_channel` futures return
   | runRetries                                      -- rejected `new_stream_channel` futures try again
+  | bindReq (req : Nat) (bt : BindType) (host : Bytes) (port : Nat)   -- `request_bind` is called
+  | bindNext                                        -- `next_bind_request`, one poll
+  | bindReply (k : Nat) (accept : Bool)             -- `BindRequest::reply` on the `k`-th request handed out
+  | bindDrop (k : Nat)                              -- that `BindRequest` is dropped
 deriving Repr
 
 /-- A live handle: one the application got and has not dropped. -/
@@ -142,7 +156,6 @@ def stepL (p : PS) : Act → Option PS
   | .recv =>
     if p.a.park.isSome then none
     else match p.ba with
-      | .frame (.bind ..) :: _ => none          -- Bind requests are outside this fragment
       | .frame f :: rest =>
         match processFrame p.a f false with
         | (e, _, none) =>
@@ -159,6 +172,13 @@ def stepL (p : PS) : Act → Option PS
   | .runRetries =>
     let e := (Mux.runRetries { p.a with retryq := [] } (sortNat p.a.retryq)).1
     if e.rng.isEmpty then none else some { p with a := e }
+  | .bindReq req bt host port =>
+    let e := (appBindReq p.a req bt host port).1
+    -- ids come from the script, as for `open`
+    if e.rng.isEmpty then none else some { p with a := e }
+  | .bindNext => some { p with a := (appBindNext p.a).1 }
+  | .bindReply k accept => some { p with a := (appBindReply p.a k accept).1 }
+  | .bindDrop k => some { p with a := (appBindDrop p.a k).1 }
 
 inductive Side where
   | A | B
@@ -219,7 +239,6 @@ def stimL (p : PS) (op : Mux.Op) : PS :=
 /-- One delivery stimulus at the left endpoint: the oldest message in transit is handed to it. -/
 def deliverL (p : PS) : Option PS :=
   match p.ba with
-  | .frame (.bind ..) :: _ => none          -- Bind requests are outside this fragment
   | .frame f :: rest =>
     let r := applyOp p.a (.deliver (.msg (.frame f)))
     some { p with a := r.1, ba := rest, ab := p.ab ++ wiresOf r.2.2,
@@ -238,3 +257,4 @@ inductive Stim where
 deriving Repr
 
 end Penguin.Pair
+
